@@ -283,6 +283,12 @@ def judge(case, impl_res, ans):
         return None
     if case['op'] in ('increment', 'diff_shifted', 'create'):
         # helper level: the Lean definition against the real helper (None = the helper raises ValueError)
+        if case['op'] == 'increment' and any(i >= len(case['arr']) for i in case['idx']):
+            # an index beyond the array is outside the contract of the PRIVATE helper (`correlograms` only passes
+            # indices built by ravel_multi_index for that array): what it does there (ValueError, IndexError, the
+            # broadcasting corner _increment([], [0]) = []) may change under a behaviour-preserving refactoring
+            # (refactoring C15 R2: np.add.at instead of bincount) - tallied, never judged
+            return None
         if 'raised' in impl_res:
             return 'CORR: helper raised %s (%s)' % (impl_res['raised'], impl_res['msg'])
         ok = impl_res['ok']
